@@ -15,7 +15,7 @@ func init() { rt.Register("C06", jobC06) }
 var c06Kinds = []string{"good", "wrong-msg", "R-bitflip", "S-bitflip", "key-bitflip", "S+L", "S-top-slice-valid", "small-order-key", "small-order-R", "undecodable-key", "undecodable-R", "key31", "key-nil", "sig63", "sig-nil", "bad-prehash-or-nil-msg"}
 
 // entries that are valid signatures under ANOTHER variant / context than the batch's options
-var c06CrossKinds = []string{"signed-as-pure", "signed-as-ctx-c", "signed-as-ctx-d", "signed-as-ph", "signed-as-ph-d"}
+var c06CrossKinds = []string{"signed-as-pure", "signed-as-ctx-c", "signed-as-ctx-d", "signed-as-ph", "signed-as-ph-d", "model-signed-over-63-bytes", "model-signed-over-65-bytes", "model-signed-over-0-bytes"}
 
 func crossSpec(kind string) variantSpec {
 	switch kind {
@@ -60,6 +60,18 @@ func mkEntry(kind string, slot int, vs variantSpec) triple {
 	g := honestTriple(5000+s, msgOf(s, vs), vs)
 	cp := func(b []byte) []byte { return append([]byte{}, b...) }
 	t := triple{cp(g.key), cp(g.msg), cp(g.sig)}
+	if len(kind) > 18 && kind[:18] == "model-signed-over-" {
+		// a signature that satisfies the equation of the batch's own variant/context over a message of
+		// the given length (made by the model: the library's signer refuses a pre-hash that is not 64
+		// bytes). Valid for pure/ctx; for ph the entry must be reported false (wrong digest length).
+		var n int
+		fmt.Sscanf(kind[18:], "%d", &n)
+		m := msgLen(n, s)
+		seed := seedOf(5000 + s)
+		t = triple{ref.Public(seed), m, ref.Sign(seed, m, vs.v, []byte(vs.ctx))}
+		c06Memo[key] = t
+		return t
+	}
 	if len(kind) > 10 && kind[:10] == "signed-as-" {
 		// a genuine signature over a 64-byte message under another variant/context
 		m := msgOf(s, vPh)
@@ -318,6 +330,30 @@ func jobC06(c *rt.Ctx) {
 			}
 		}
 	}
+	// level 1b: one entry that is a genuine signature under another variant/context, or (model-made)
+	// over a message of a length the pre-hash variant must refuse
+	for _, n := range []int{4, 5, 9, 64, 68, 130} {
+		for _, p := range []int{0, 2, n - 1, 63, 65} {
+			if p >= n || p < 0 {
+				continue
+			}
+			for ki, kind := range c06CrossKinds {
+				for oi, o := range opts {
+					if !c.Thorough() && (n+p+ki)%len(opts) != oi && o.vs.v != ref.Ph {
+						continue
+					}
+					if !c.Take() {
+						continue
+					}
+					es, ks := build(n, map[int]string{p: kind}, o.vs)
+					c.Class("level1")
+					c.Class("kind/" + kind)
+					c.Distinct(fmt.Sprintf("l1b %d %d %s %d", n, p, kind, oi), true)
+					checkBatch(c, "level1", es, ks, o.vs, o.zip, (n+p)%2, fmt.Sprintf("l1b-%d-%d", n, p))
+				}
+			}
+		}
+	}
 	// level 2: two bad entries
 	for _, n := range sizes {
 		var poss []int
@@ -416,6 +452,30 @@ func jobC06(c *rt.Ctx) {
 					c.Distinct(fmt.Sprintf("hom %d %s %d %d", n, kind, oi, where), true)
 					checkBatch(c, "homogeneous", es, ks, o.vs, o.zip, (n+ki)%2, fmt.Sprintf("hom-%d-%d", n, ki))
 				}
+			}
+		}
+	}
+	// runs: ONE bad entry repeated over a range of positions (identical key, message and signature),
+	// in particular across a chunk boundary
+	c.Require("runs")
+	type run struct{ n, lo, hi int }
+	for _, r := range []run{{8, 0, 8}, {8, 2, 6}, {70, 60, 70}, {70, 62, 68}, {70, 64, 70}, {72, 63, 72}, {132, 126, 132}, {132, 120, 132}, {68, 0, 68}} {
+		for ki, kind := range hk {
+			for oi, o := range opts {
+				if !c.Thorough() && (ki+r.lo)%len(opts) != oi {
+					continue
+				}
+				if !c.Take() {
+					continue
+				}
+				es, ks := build(r.n, nil, o.vs)
+				one := mkEntry(kind, r.lo, o.vs)
+				for i := r.lo; i < r.hi; i++ {
+					es[i], ks[i] = one, kind
+				}
+				c.Class("runs")
+				c.Distinct(fmt.Sprintf("run %v %s %d", r, kind, oi), true)
+				checkBatch(c, "runs", es, ks, o.vs, o.zip, ki%2, fmt.Sprintf("run-%d-%d", r.n, ki))
 			}
 		}
 	}
